@@ -502,10 +502,12 @@ def op_coq(o):
     k = o["op"]
     if k == "Parse":
         return "Parse %d %d %d" % (o["c"], o["n"], o["st"])
-    if k in ("Bind", "Describe", "Close"):
+    if k == "Bind":
+        return "Bind %d %d %d" % (o["c"], o.get("p", 0), o["n"])
+    if k in ("Describe", "Close"):
         return "%s %d %d" % (k, o["c"], o["n"])
-    if k == "Execute":
-        return "Execute %d" % o["c"]
+    if k in ("Execute", "DescribeP", "CloseP"):
+        return "%s %d %d" % (k, o["c"], o.get("p", 0))
     if k == "Sync":
         return "Sync %d %d" % (o["c"], o["s"])
     if k == "Cleanup":
@@ -518,9 +520,11 @@ def prog_coq(ops):
 
 
 def P(c, n, st): return {"op": "Parse", "c": c, "n": n, "st": st}
-def B(c, n): return {"op": "Bind", "c": c, "n": n}
+def B(c, n, p=0): return {"op": "Bind", "c": c, "n": n, "p": p}          # portal p (0 = unnamed; "s<p>" on the wire, like statement names)
 def D(c, n): return {"op": "Describe", "c": c, "n": n}
-def E(c): return {"op": "Execute", "c": c}
+def E(c, p=0): return {"op": "Execute", "c": c, "p": p}
+def DP(c, p): return {"op": "DescribeP", "c": c, "p": p}
+def CP(c, p): return {"op": "CloseP", "c": c, "p": p}
 def C(c, n): return {"op": "Close", "c": c, "n": n}
 def S(c, s): return {"op": "Sync", "c": c, "s": s}
 def CL(s): return {"op": "Cleanup", "s": s}
@@ -542,13 +546,17 @@ def gen_program(rng, nclients, nservers, k, length, wild):
             if r < 0.25:
                 out.append(P(c, rng.choice(names), rng.choice(stmts)))
             elif r < 0.45:
-                out.append(B(c, rng.choice(names)))
-            elif r < 0.55:
+                out.append(B(c, rng.choice(names), rng.choice([0, 0, 0, 1, 2])))
+            elif r < 0.52:
                 out.append(D(c, rng.choice(names)))
+            elif r < 0.55:
+                out.append(DP(c, rng.choice([0, 1, 2])))
             elif r < 0.7:
-                out.append(E(c))
-            elif r < 0.8:
+                out.append(E(c, rng.choice([0, 0, 0, 1, 2])))
+            elif r < 0.77:
                 out.append(C(c, rng.choice(names)))
+            elif r < 0.8:
+                out.append(CP(c, rng.choice([0, 1, 2, 3])))
             elif r < 0.97:
                 out.append(S(c, rng.randrange(nservers)))
             else:
@@ -558,6 +566,26 @@ def gen_program(rng, nclients, nservers, k, length, wild):
         budget = k
         batch = []
         mentioned = set()
+        openp = set()
+
+        def be(n):
+            """Bind + Execute through a portal: mostly the unnamed one, sometimes a named one whose name may EQUAL a statement
+            name; Describe('P') / Close('P') sprinkled in; a named portal is bound only while it is not open"""
+            p = rng.choice([0, 0, 0, 1, 2, 3])
+            ops = []
+            if p != 0 and p in openp:
+                ops.append(CP(c, p)); openp.discard(p)
+            ops.append(B(c, n, p)); openp.add(p)
+            if rng.random() < 0.15:
+                ops.append(DP(c, p))
+            ops.append(E(c, p))
+            r2 = rng.random()
+            if r2 < 0.25:
+                ops.append(CP(c, p)); openp.discard(p)
+            elif r2 < 0.4:
+                q = rng.choice([1, 2, 3])                   # Close('P') of a portal that may not exist / is called like a statement
+                ops.append(CP(c, q)); openp.discard(q)
+            return ops
         for _ in range(rng.choice([1, 1, 2, 3])):
             free = [n for n in names if n not in mentioned]
             have = [n for n in t if True]
@@ -569,16 +597,16 @@ def gen_program(rng, nclients, nservers, k, length, wild):
                 st = rng.choice(stmts)
                 batch.append(P(c, n, st)); t[n] = st; mentioned.add(n); budget -= 1
                 if rng.random() < 0.6:
-                    batch += [B(c, n), E(c)]
+                    batch += be(n)
             elif r < 0.75 and have and (budget > 0 or any(n in mentioned for n in have)):
                 n = rng.choice([n for n in have if budget > 0 or n in mentioned])
                 if n not in mentioned:
                     budget -= 1
                 for _ in range(rng.choice([1, 1, 1, 2, 5])):     # the same statement bound several times (batch insert)
-                    batch += [B(c, n), E(c)]
+                    batch += be(n)
                 mentioned.add(n)
-                if rng.random() < 0.2:
-                    batch.append(E(c))
+                if rng.random() < 0.2 and openp:
+                    batch.append(E(c, rng.choice(sorted(openp))))
             elif r < 0.85 and have and (budget > 0 or any(n in mentioned for n in have)):
                 n = rng.choice([n for n in have if budget > 0 or n in mentioned])
                 if n not in mentioned:
@@ -673,6 +701,13 @@ FINE = [
     ("two-clients-same-name-different-statements", 4, 2, [P(0, 1, 10), P(1, 1, 11), S(0, 0), S(1, 0), B(0, 1), E(0), S(0, 1), B(1, 1), E(1), S(1, 1)]),
     ("unnamed-statement-reparsed-in-one-batch", 2, 1, [P(0, 0, 10), B(0, 0), E(0), P(0, 0, 11), B(0, 0), E(0), S(0, 0), P(0, 0, 12), B(0, 0), E(0), S(0, 0)]),
     ("batch-insert-one-statement-bound-many-times", 1, 1, [P(0, 1, 10), S(0, 0)] + [B(0, 1), E(0)] * 6 + [S(0, 0)]),
+    # portals and statements are two name spaces (seeded change: Close('P', x) must not forget STATEMENT x)
+    ("fixed-portal-close-then-statement-of-the-same-name", 4, 1, [P(0, 1, 10), B(0, 1, 1), E(0, 1), CP(0, 1), S(0, 0), B(0, 1), E(0), S(0, 0), D(0, 1), S(0, 0)]),
+    ("fixed-portal-named-like-statement-in-one-batch", 4, 1,
+     [P(0, 1, 10), B(0, 1, 1), E(0, 1), CP(0, 1), B(0, 1), E(0), S(0, 0), B(0, 1, 1), DP(0, 1), E(0, 1), S(0, 0)]),
+    ("fixed-portal-close-statement-keeps-portals", 4, 2,
+     [P(0, 1, 10), P(0, 2, 11), B(0, 1, 2), B(0, 2, 1), C(0, 1), E(0, 2), E(0, 1), CP(0, 2), S(0, 0), B(0, 2), E(0), S(0, 1)]),
+    ("fixed-portal-close-of-unknown-portal-named-like-statement", 2, 1, [P(0, 2, 11), S(0, 0), CP(0, 2), CP(0, 0), S(0, 0), B(0, 2), E(0), S(0, 0)]),
 ]
 
 
@@ -800,7 +835,7 @@ def classify_gap(prog):
         kd = o["op"]
         if kd == "Sync":
             b = batch.pop(o["c"], [])
-            need, known, bound = 0, set(), False
+            need, known, openp = 0, set(), set()
             t = tabs.setdefault(o["c"], set())
             for x in b:
                 if x["op"] == "Parse":
@@ -810,13 +845,16 @@ def classify_gap(prog):
                         cls |= {"lenient", "F11h"}
                     if x["n"] not in known:
                         need += 1; known.add(x["n"])
-                    bound = bound or x["op"] == "Bind"
+                    if x["op"] == "Bind":
+                        openp.add(x.get("p", 0))
                 elif x["op"] == "Close":
                     t.discard(x["n"]); known.discard(x["n"])
                     if x["n"] == 0:
                         cls.add("lenient")
-                elif x["op"] == "Execute" and not bound:
-                    cls |= {"lenient", "F11h"}
+                elif x["op"] == "CloseP":
+                    openp.discard(x.get("p", 0))
+                elif x["op"] in ("Execute", "DescribeP") and x.get("p", 0) not in openp:
+                    cls |= {"lenient", "F11h"}      # 34000: an error in the middle of a batch
             if need > k:
                 cls.add("F11e")
         elif kd != "Cleanup":
@@ -831,7 +869,7 @@ def pynorm(obs_list):
         if kind == "Killed":
             out.append("Killed")
         else:
-            data = [r for r in rs if r == "RErr" or (isinstance(r, tuple) and r[0] in ("RRow", "RDescr"))]
+            data = [r for r in rs if r in ("RErr", "RDescrP") or (isinstance(r, tuple) and r[0] in ("RRow", "RDescr"))]
             out.append((tuple(data), rs.count("R1"), rs.count("R2"), rs.count("R3"), rs.count("RZ")))
     return out
 
@@ -853,11 +891,17 @@ def wire_tie(run, quick, extra=()):
         ops = CW.atomicize(gen_program(rng, rng.choice([2, 2, 3]), ns, k, rng.choice([5, 8, 12]) if not wild else rng.choice([8, 14, 20]), wild))
         if any(o["op"] == "Sync" for o in ops):
             progs.append({"name": "gen%d%s" % (i, "w" if wild else ""), "k": k, "servers": ns, "ops": ops})
+    allops = [o for p in progs for o in p["ops"]]
+    portal_cov = {"binds_named_portal": sum(1 for o in allops if o["op"] == "Bind" and o.get("p", 0) != 0),
+                  "binds_portal_named_like_its_statement": sum(1 for o in allops if o["op"] == "Bind" and o.get("p", 0) == o["n"] != 0),
+                  "close_portal": sum(1 for o in allops if o["op"] == "CloseP"),
+                  "describe_portal": sum(1 for o in allops if o["op"] == "DescribeP"),
+                  "execute_named_portal": sum(1 for o in allops if o["op"] == "Execute" and o.get("p", 0) != 0)}
     preds = predict(progs, "c08wt")
     res = W.run_scenarios(wire, [CW.scenario(p) for p in progs], timeout=120)
     st = {"scenarios": len(progs), "hand_made": nhand, "agree_with_model": 0, "set_aside_reconnect": 0, "guard_true": 0, "guard_true_like_direct": 0,
           "guard_false_like_direct": 0, "guard_false_differs_known_class": 0, "syncs": 0, "executes_checked_by_monitor": 0, "backend_msgs_compared": 0,
-          "known_classes_seen": {}}
+          "known_classes_seen": {}, "portal_ops": portal_cov}
     for p, pr, r in zip(progs, preds, res):
         rep = {"input": {"k": p["k"], "servers": p["servers"], "ops": p["ops"], "name": p["name"]}}
         if "harness_error" in r:
@@ -877,8 +921,15 @@ def wire_tie(run, quick, extra=()):
         # (2) model = implementation (client replies and per-connection backend logs)
         d = CW.diff(p, obs, pr)
         if d:
-            run.violation("tie-broken", "cache model and pgcat differ on %s: %s" % (p["name"], d[0][:400]),
-                          dict(rep, correspondence="coq/Prep/Cache.v vs pgcat on the wire", differences=d[:6]))
+            a0 = CW.normalise_obs(obs)
+            spec0 = CW.normalise_obs({"clients": {c: [o for o in pr["direct_connection"] if o["client"] == c] for c in {o["client"] for o in pr["direct_connection"]}}})
+            like0 = all(pynorm(a0.get(c, [])) == pynorm(spec0.get(c, [])) for c in set(a0) | set(spec0))
+            if (pr["guard"] or p["name"].startswith("fixed-")) and not like0:
+                run.violation("counterexample", "pgcat with statement caching differs from a direct connection (and from the model) on %s, a program inside the guard of c08_refines_direct / a repaired scenario: %s"
+                              % (p["name"], d[0][:400]), dict(rep, impl={str(c): v for c, v in a0.items()}, direct={str(c): v for c, v in spec0.items()}, differences=d[:6]))
+            else:
+                run.violation("tie-broken", "cache model and pgcat differ on %s: %s" % (p["name"], d[0][:400]),
+                              dict(rep, correspondence="coq/Prep/Cache.v vs pgcat on the wire", differences=d[:6]))
             return st
         st["agree_with_model"] += 1
         run.cov["traces_validated_against_impl"] += 1
